@@ -39,8 +39,10 @@ fn stack_effect(tok: &[u8]) -> i32 {
     match op {
         0xB0..=0xB7 => 1 + (op - 0xB0) as i32,
         0xB8..=0xBF => 1 + (op - 0xB8) as i32,
-        0x00 | 0x01 | 0x18 | 0x19 | 0x3D | 0x7A | 0x7C | 0x7D | 0x30 | 0x31 | 0x23 | 0x43 | 0x46 | 0x47 | 0x68..=0x6B | 0x59 => 0,
-        0x10..=0x12 | 0x1D | 0x21 | 0x2E | 0x2F | 0x32 | 0x33 | 0x39 | 0x3C | 0x50 | 0x60 | 0x61 | 0x58 => -1,
+        0x00 | 0x01 | 0x18 | 0x19 | 0x3D | 0x7A | 0x7C | 0x7D | 0x30 | 0x31 | 0x23 | 0x43 | 0x45 | 0x46 | 0x47 | 0x68..=0x6F | 0x59 | 0x4D | 0x4E | 0x88 => 0,
+        0x10..=0x12 | 0x1A | 0x1D..=0x1F | 0x21 | 0x2E | 0x2F | 0x32 | 0x33 | 0x39 | 0x3C | 0x50 | 0x5A | 0x5E | 0x5F | 0x60..=0x62 | 0x58 | 0x76 | 0x77 | 0x85 | 0x8D => -1,
+        0x44 | 0x8E => -2,
+        0x71..=0x75 => -3,
         0xC0..=0xDF => -1,
         0x2B => -2,
         0x38 | 0x3E | 0x3F | 0x42 | 0x48 => -2,
